@@ -84,6 +84,10 @@ type vpipe struct {
 	held                   []vpHeld
 	c                      *vpCase
 	feat                   map[string]bool
+	// level (ii): snd / rcv are the two ends of a real stream of a real session pair; flush = the real
+	// Stream.Flush followed by a wait for the arrival at the receiver (see c06_session_test.go)
+	real      bool
+	realFlush func() error
 }
 
 func vpNew(caps, counts []int, c *vpCase) (*vpipe, error) {
@@ -128,6 +132,9 @@ func vpNew(caps, counts []int, c *vpCase) (*vpipe, error) {
 }
 
 func (p *vpipe) free() []int {
+	if p.real {
+		return []int{} // the session's allocator is fully held by the harness: the model runs with no size class
+	}
 	r := make([]int, len(p.bm.lists))
 	for i, l := range p.bm.lists {
 		r[i] = int(*l.size)
@@ -163,6 +170,14 @@ func (p *vpipe) vpFlush() {
 		p.feat["shm"] = true
 	}
 	s.sendBuf.clean()
+}
+
+func (p *vpipe) flush() error {
+	if p.real {
+		return p.realFlush()
+	}
+	p.vpFlush()
+	return nil
 }
 
 func (p *vpipe) fail(sig, what string) {
@@ -267,12 +282,12 @@ func (p *vpipe) exec(idx int, op vpOp) bool {
 			if op.N > 0 {
 				n, err = w.WriteBytes(vpKeyed(op.A, op.N))
 				if err == nil {
-					p.vpFlush()
+					err = p.flush()
 				}
 			}
 			ob.N = n
 		case "FL":
-			p.vpFlush()
+			err = p.flush()
 		case "WA":
 			// the state Stream.ReleaseReadAndReuse leaves in the send position: one reset shm slice that is
 			// both the only slice and the write slice, Len() == 0 (cf. newLinkedBufferWithSlice in buffer_test.go)
@@ -434,7 +449,7 @@ func (p *vpipe) exec(idx int, op vpOp) bool {
 		}
 	}
 	// slot accounting: free + owned by the two buffers + in flight + held by others = total (per class)
-	if op.K == "RL" || op.K == "RU" || op.K == "CL" || op.K == "FL" {
+	if !p.real && (op.K == "RL" || op.K == "RU" || op.K == "CL" || op.K == "FL") {
 		p.accounting(idx, op)
 	}
 	p.c.Obs = append(p.c.Obs, ob)
@@ -623,6 +638,69 @@ func vpGenCase(rng *vrand, id int, mode string) *vpCase {
 		wth, oth := 38, 8
 		if mode == "c08" {
 			wth, oth = 25, 30
+		}
+		// a zero-copy Peek of a not yet consumed slice, kept; a Discard crossing that slice's end; then other
+		// owners cycle the FIFO free list of that class (allocate, scribble, free) before the release: a
+		// parked slot that was recycled too early is re-allocated and overwritten, and the kept result changes
+		pkProb := 3
+		if mode == "c08" {
+			pkProb = 14
+		}
+		if x >= 6 && x < 6+pkProb && !p.snd.inFallbackState && p.snd.sendBuf.sliceList.writeSlice == nil && len(p.pendW) == 0 {
+			cls := -1
+			for i, l := range p.bm.lists {
+				if l.remain() >= 3 {
+					cls = i
+					break
+				}
+			}
+			if cls >= 0 {
+				ok := true
+				// drain and release so that the next message starts a fresh front slice
+				for ok && len(p.avail)+len(p.inflight) > 0 {
+					ok = run(vpOp{K: "RB", N: len(p.avail) + len(p.inflight)})
+				}
+				ok = ok && run(vpOp{K: "RL"})
+				cc := caps[cls]
+				n1 := cc - rng.intn(2)
+				if n1 < 1 {
+					n1 = 1
+				}
+				n2 := 1 + rng.intn(cc)
+				ok = ok && run(vpOp{K: "WB", A: p.wabs, N: n1})
+				p.wabs += n1
+				ok = ok && run(vpOp{K: "FL"})
+				ok = ok && run(vpOp{K: "WB", A: p.wabs, N: n2})
+				p.wabs += n2
+				ok = ok && run(vpOp{K: "FL"})
+				pk := 1 + rng.intn(n1)
+				ok = ok && run(vpOp{K: "PK", N: pk})
+				if ok && rng.chance(30) {
+					ok = run(vpOp{K: "PK", N: 1 + rng.intn(n1)})
+				}
+				over := n1 + 1 + rng.intn(n2)
+				if over > n1+n2 {
+					over = n1 + n2
+				}
+				if rng.chance(25) {
+					ok = ok && run(vpOp{K: "RB", N: 1})
+					over--
+				}
+				ok = ok && run(vpOp{K: "DC", N: over})
+				rounds := p.total[cls] + 1
+				for i := 0; ok && i < rounds; i++ {
+					ok = run(vpOp{K: "OA", N: cc})
+					if ok && len(p.others) > 0 {
+						last := len(p.others) - 1
+						ok = run(vpOp{K: "OF", A: last, N: rng.intn(250)}) && run(vpOp{K: "OX", A: last})
+					}
+				}
+				if !ok {
+					return c
+				}
+				p.feat["peek-discard-cycle"] = true
+				continue
+			}
 		}
 		// an empty slice inside a flushed shm chain (the reset slice adopted from ReleaseReadAndReuse, skipped by a larger Reserve):
 		// exercises moveTo's unlinking of empty slices, at the front of the list and behind unread data
